@@ -5,6 +5,7 @@ import (
 	"strconv"
 	"strings"
 	"testing"
+	"unicode"
 
 	"pault.ag/go/debian/version"
 	"pgregory.net/rapid"
@@ -14,7 +15,7 @@ import (
 
 var specC03WellFormed = Register(&Spec[WellFormed]{
 	Prop: "C03", Name: "wellformed",
-	Rule: "version strings rendered from the Policy grammar: optional decimal epoch (leading zeros, up to MaxInt64), upstream = digit then [A-Za-z0-9.+~]* with ':' only when an epoch is written and '-' only when a revision is written, optional revision [A-Za-z0-9.+~]+, optional surrounding blanks/tabs/newlines. Oracle (an epoch that does not fit the platform's uint - possible on 32-bit builds, which the driver also runs - must be rejected instead): Parse, UnmarshalControl and UnmarshalText succeed and return exactly the renderer's parts - into fresh receivers and into receivers that held another version before (UnmarshalControl, UnmarshalText, json.Unmarshal). Non-trivial: has an epoch and/or a revision and/or ':' or '-' inside upstream; distinct by text.",
+	Rule: "version strings rendered from the Policy grammar: optional decimal epoch (leading zeros, up to MaxInt64), upstream = digit then [A-Za-z0-9.+~]* with ':' only when an epoch is written and '-' only when a revision is written, optional revision [A-Za-z0-9.+~]+, optional surrounding blanks/tabs/newlines. Oracle (an epoch that does not fit the platform's uint - possible on 32-bit builds, which the driver also runs - must be rejected instead): Parse, UnmarshalControl and UnmarshalText succeed and return exactly the renderer's parts - into fresh receivers and into receivers that held another version before (UnmarshalControl, UnmarshalText, json.Unmarshal), and the value does not change when the byte slice handed to UnmarshalText is overwritten afterwards. Non-trivial: has an epoch and/or a revision and/or ':' or '-' inside upstream; distinct by text.",
 	Check: func(w WellFormed, r *Recorder) error {
 		cl := []string{}
 		if w.HasEpoch {
@@ -62,8 +63,17 @@ var specC03WellFormed = Register(&Spec[WellFormed]{
 			return errf("UnmarshalControl(%q) = %+v, %v; want %+v", w.Text, viaControl, err, want)
 		}
 		var viaText version.Version
-		if err := viaText.UnmarshalText([]byte(w.Text)); err != nil || viaText != want {
+		buf := []byte(w.Text)
+		if err := viaText.UnmarshalText(buf); err != nil || viaText != want {
 			return errf("UnmarshalText(%q) = %+v, %v; want %+v", w.Text, viaText, err, want)
+		}
+		// the caller's buffer is the caller's: reusing it (the next line of a file read into the
+		// same slice) must not reach into the value
+		for i := range buf {
+			buf[i] = 'X'
+		}
+		if viaText != want {
+			return errf("UnmarshalText(%q) gave %+v, but after the caller overwrote its own buffer the value reads %+v", w.Text, want, viaText)
 		}
 		// a receiver that held another version before (one variable decoded into repeatedly)
 		used := version.Version{Epoch: 7, Version: "9.9-9", Revision: "old1"}
@@ -92,6 +102,27 @@ type NearMiss struct {
 	Text  string `json:"text"`
 	Class string `json:"class"`
 	From  string `json:"from"`
+}
+
+// genBadVersionChar draws something that is neither in the Policy alphabet nor white space: a
+// fixed list of ASCII punctuation and control bytes, any byte >= 0x80 on its own, or any rune
+// from a few Unicode blocks (letters and digits of other scripts included - the alphabet is
+// ASCII).
+func genBadVersionChar(t *rapid.T) string {
+	switch rapid.IntRange(0, 3).Draw(t, "badk") {
+	case 0, 1:
+		return rapid.SampledFrom([]string{"_", "!", "@", "#", "$", "%", "^", "&", "*", "(", ")", "=", ",", ";", "/", "\\", "\"", "'", "<", ">", "?", "[", "]", "{", "}", "|", "`", "é", "\x00", "\x7f", "\xff", "ü", "٣", "\x01", "\x1b"}).Draw(t, "bad")
+	case 2:
+		return string([]byte{byte(rapid.IntRange(0x80, 0xff).Draw(t, "badbyte"))})
+	default:
+		for {
+			blk := rapid.SampledFrom([][2]int{{0x80, 0x24f}, {0x370, 0x3ff}, {0x400, 0x4ff}, {0x660, 0x669}, {0x2010, 0x2027}, {0x4e00, 0x4e40}, {0xff10, 0xff5a}, {0x1f600, 0x1f640}}).Draw(t, "badblk")
+			r := rune(rapid.IntRange(blk[0], blk[1]).Draw(t, "badrune"))
+			if !unicode.IsSpace(r) {
+				return string(r)
+			}
+		}
+	}
 }
 
 func genNearMiss(t *rapid.T) NearMiss {
@@ -158,7 +189,7 @@ func genNearMiss(t *rapid.T) NearMiss {
 		}
 		return NearMiss{Text: wrap(s), Class: class, From: canon}
 	case "bad-char-upstream":
-		bad := rapid.SampledFrom([]string{"_", "!", "@", "#", "$", "%", "^", "&", "*", "(", ")", "=", ",", ";", "/", "\\", "\"", "'", "<", ">", "?", "[", "]", "{", "}", "|", "`", "é", "\x00", "\x7f", "\xff", "ü", "٣"}).Draw(t, "bad")
+		bad := genBadVersionChar(t)
 		p := rapid.IntRange(1, len(w.Upstream)).Draw(t, "p")
 		up := w.Upstream[:p] + bad + w.Upstream[p:]
 		s := up
@@ -170,7 +201,7 @@ func genNearMiss(t *rapid.T) NearMiss {
 		}
 		return NearMiss{Text: wrap(s), Class: class, From: canon}
 	default: // bad-char-revision
-		bad := rapid.SampledFrom([]string{"_", "!", "@", "#", "$", "%", "^", "&", "*", "(", ")", "=", ",", ";", "/", "\\", "\"", "'", "<", ">", "?", "[", "]", "{", "}", "|", "`", "é", "\x00", "\x7f", "\xff"}).Draw(t, "bad")
+		bad := genBadVersionChar(t)
 		rev := w.Revision
 		if !w.HasRev {
 			rev = "1"
@@ -187,7 +218,7 @@ func genNearMiss(t *rapid.T) NearMiss {
 
 var specC03Reject = Register(&Spec[NearMiss]{
 	Prop: "C03", Name: "reject",
-	Rule: "one edit of a Policy-grammar version that puts it in exactly one of the rejection classes the statement names: non-numeric epoch, negative epoch, epoch > MaxInt64, whitespace embedded inside, nothing after the colon, non-digit first upstream character, a character outside [A-Za-z0-9.+~] (plus ':' '-') in upstream or revision (ASCII punctuation, NUL, DEL, non-ASCII, invalid UTF-8). Oracle: Parse, UnmarshalControl and UnmarshalText all return an error. Every case is non-trivial; distinct by text; classes counted separately.",
+	Rule: "one edit of a Policy-grammar version that puts it in exactly one of the rejection classes the statement names: non-numeric epoch, negative epoch, epoch > MaxInt64, whitespace embedded inside, nothing after the colon, non-digit first upstream character, a character outside [A-Za-z0-9.+~] (plus ':' '-') in upstream or revision (ASCII punctuation and control bytes, NUL, DEL, any lone byte >= 0x80, any non-space rune from Latin-1/Latin Extended, Greek, Cyrillic, Arabic-Indic digits, general punctuation, CJK, fullwidth forms, emoji). Oracle: Parse, UnmarshalControl and UnmarshalText all return an error. Every case is non-trivial; distinct by text; classes counted separately.",
 	Check: func(n NearMiss, r *Recorder) error {
 		r.Case(n.Text, true, "reject:"+n.Class)
 		r.Sample(n)
